@@ -159,111 +159,12 @@ Proof.
   unfold date_test at 1. simpl. rewrite Hb. simpl. now rewrite flat_lines.
 Qed.
 
-(* ---- gap-free numbering ---- *)
-Lemma gapfree_count d s m : gapfree d s m -> length (filter (prefixb d) s) = m.
-Proof.
-  intros [Hnd [Hall Hex]].
-  assert (Hp : Permutation (filter (prefixb d) s) (map (with_suffix d) (seq 1 m))).
-  { apply NoDup_Permutation.
-    - now apply NoDup_filter.
-    - clear. generalize 1%nat. induction m as [|m IH]; intros st; simpl; constructor; [|apply IH].
-      rewrite in_map_iff. intros [k [Hk Hin]]. apply with_suffix_inj in Hk. subst k.
-      apply in_seq in Hin. lia.
-    - intros n. rewrite filter_In, in_map_iff. split.
-      + intros [Hin Hp]. destruct (Hall n Hin Hp) as [k [Hk ->]]. exists k. split; [reflexivity|].
-        apply in_seq. lia.
-      + intros [k [<- Hk]]. apply in_seq in Hk. split; [apply Hex; lia|apply prefixb_with_suffix]. }
-  apply Permutation_length in Hp. now rewrite Hp, map_length, seq_length.
-Qed.
-
-Lemma gapfree_fresh d s m : gapfree d s m -> ~ In (gen_build_id d s) s.
-Proof.
-  intros Hg Hin. unfold gen_build_id in Hin. rewrite (gapfree_count d s m Hg) in Hin.
-  destruct Hg as [_ [Hall _]].
-  destruct (Hall _ Hin (prefixb_with_suffix d (S m))) as [k [Hk He]].
-  apply with_suffix_inj in He. lia.
-Qed.
-
 Lemma NoDup_app_one {A} (l : list A) x : NoDup l -> ~ In x l -> NoDup (l ++ [x]).
 Proof.
   intros Hn Hx. induction Hn as [|a l Ha Hn IH]; simpl; [repeat constructor; auto|].
   constructor.
   - intros Hin. apply in_app_or in Hin as [Hin|[->|[]]]; [contradiction|]. apply Hx. now left.
   - apply IH. intros H. apply Hx. now right.
-Qed.
-
-Lemma gapfree_run d s m : gapfree d s m -> gapfree d (s ++ [gen_build_id d s]) (S m).
-Proof.
-  intros Hg. pose proof (gapfree_fresh d s m Hg) as Hf.
-  unfold gen_build_id in *. rewrite (gapfree_count d s m Hg) in *.
-  destruct Hg as [Hnd [Hall Hex]]. split; [|split].
-  - now apply NoDup_app_one.
-  - intros n Hin Hp. apply in_app_or in Hin as [Hin|[<-|[]]].
-    + destruct (Hall n Hin Hp) as [k [Hk ->]]. exists k. split; [lia|reflexivity].
-    + exists (S m). split; [lia|reflexivity].
-  - intros k Hk. apply in_or_app. destruct (Nat.eq_dec k (S m)) as [->|Hne].
-    + right. now left.
-    + left. apply Hex. lia.
-Qed.
-
-(* a name of another day does not disturb the numbering of day d *)
-Lemma gapfree_add_other d s m n :
-  gapfree d s m -> prefixb d n = false -> ~ In n s -> gapfree d (s ++ [n]) m.
-Proof.
-  intros [Hnd [Hall Hex]] Hp Hn. split; [|split].
-  - now apply NoDup_app_one.
-  - intros x Hin Hx. apply in_app_or in Hin as [Hin|[<-|[]]]; [now apply Hall|congruence].
-  - intros k Hk. apply in_or_app. left. now apply Hex.
-Qed.
-
-Lemma gapfree_remove_none d s m vs :
-  gapfree d s m -> (forall n, In n s -> prefixb d n = true -> memb n vs = false) ->
-  gapfree d (filter (fun n => negb (memb n vs)) s) m.
-Proof.
-  intros [Hnd [Hall Hex]] Hv. split; [|split].
-  - now apply NoDup_filter.
-  - intros n Hin Hp. apply filter_In in Hin as [Hin _]. now apply Hall.
-  - intros k Hk. apply filter_In. split; [now apply Hex|].
-    rewrite (Hv _ (Hex k Hk) (prefixb_with_suffix d k)). reflexivity.
-Qed.
-
-Lemma gapfree_remove_all d s m vs :
-  gapfree d s m -> (forall n, In n s -> prefixb d n = true -> memb n vs = true) ->
-  gapfree d (filter (fun n => negb (memb n vs)) s) 0.
-Proof.
-  intros [Hnd [Hall Hex]] Hv. split; [|split].
-  - now apply NoDup_filter.
-  - intros n Hin Hp. apply filter_In in Hin as [Hin Hb].
-    rewrite (Hv n Hin Hp) in Hb. discriminate.
-  - intros k Hk. lia.
-Qed.
-
-Lemma all_gapfree_nil L : all_gapfree L [].
-Proof.
-  intros d _. exists 0%nat. split; [constructor|split].
-  - intros n [].
-  - intros k Hk. lia.
-Qed.
-
-Lemma all_gapfree_step L s o :
-  all_gapfree L s ->
-  match o with Run d => length d = L | Remove vs => whole_days L s vs end ->
-  all_gapfree L (fst (op_step gen_build_id s o)) /\
-  match snd (op_step gen_build_id s o) with Some (_, c) => c = false | None => True end.
-Proof.
-  intros Hall Hg. destruct o as [d|vs]; simpl.
-  - destruct (Hall d Hg) as [m Hm].
-    pose proof (gapfree_fresh d s m Hm) as Hf. apply memb_false in Hf. rewrite Hf. simpl.
-    split; [|reflexivity]. intros d' Hl.
-    destruct (beq_spec d' d) as [->|Hne].
-    + exists (S m). now apply gapfree_run.
-    + destruct (Hall d' Hl) as [m' Hm']. exists m'. apply gapfree_add_other; [exact Hm'| |now apply memb_false].
-      destruct (prefixb d' (gen_build_id d s)) eqn:E; [|reflexivity].
-      exfalso. apply Hne. eapply prefix_same_length; [|exact E]. congruence.
-  - split; [|exact I]. intros d Hl. destruct (Hall d Hl) as [m Hm].
-    destruct (Hg d Hl) as [Hnone|Hevery].
-    + exists m. now apply gapfree_remove_none.
-    + exists 0%nat. eapply gapfree_remove_all; eassumption.
 Qed.
 
 Lemma history_cons gen s o ops :
@@ -276,20 +177,6 @@ Lemma history_cons gen s o ops :
 Proof.
   simpl. destruct (op_step gen s o) as [s1 r]. simpl.
   destruct (history gen s1 ops) as [s2 rs]. reflexivity.
-Qed.
-
-Lemma guarded_no_collision L ops : forall s,
-  all_gapfree L s -> guarded gen_build_id L s ops ->
-  no_collision (snd (history gen_build_id s ops)) /\
-  all_gapfree L (fst (history gen_build_id s ops)).
-Proof.
-  induction ops as [|o ops IH]; intros s Hall Hg.
-  - simpl. split; [constructor|exact Hall].
-  - destruct Hg as [Ho Hrest]. rewrite history_cons. simpl.
-    destruct (all_gapfree_step L s o Hall Ho) as [Hall1 Hc].
-    destruct (IH _ Hall1 Hrest) as [Hnc Hall2]. split; [|exact Hall2].
-    destruct (snd (op_step gen_build_id s o)) as [[id c]|]; [|exact Hnc].
-    constructor; [exact Hc|exact Hnc].
 Qed.
 
 (* ---- the candidate repair ---- *)
